@@ -2,7 +2,7 @@
   C17 — ITS never strands user value when an asynchronous step does not go through.
   Full strength does NOT hold on the unchanged code (finding F2): see `…_strands_gas`.
 -/
-import Axelar.Proofs.ItsMonad
+import Axelar.Proofs.Balances
 namespace Axelar.Props.C17
 open Axelar Axelar.ItsW Axelar.Its Codec
 
@@ -98,6 +98,48 @@ theorem successful_callback_refunds_or_forwards_partial (C : Crypto) (cx : ICtx)
         right
         simp only [hp] at h
         exact ⟨name, dec, rfl, rfl, h⟩
+
+
+/-! ### Where the value goes (EGLD balances) -/
+
+/-- **A successful metadata callback moves exactly the gas value out of the service**: to the
+    original caller (error / non-fungible reply) or to the gas service (fungible reply, together
+    with the gateway call) — for every reply, gas value and world state.  Nobody else's EGLD
+    balance changes. -/
+theorem metadata_callback_moves_exactly_the_gas_value (C : Crypto) (cx : ICtx) (tok : Bytes) (gas : Nat)
+    (caller : Bytes) (ok : Bool) (vals : List Bytes) (t t' : Tx)
+    (hkgs : t.w.kind t.w.its.gasService = some .gasService) (hkgw : t.w.kind t.w.its.gateway = some .gateway)
+    (h : registerTokenMetadataCallback C cx tok gas caller ok vals t = some ((), t')) :
+    gas ≤ World.egld t.w cx.self ∧
+    ((∀ x, World.egld t'.w x = World.movedEgld t.w cx.self caller gas x) ∨
+     (∀ x, World.egld t'.w x = World.movedEgld t.w cx.self t.w.its.gasService gas x)) := by
+  rcases successful_callback_refunds_or_forwards_partial C cx tok gas caller ok vals t t' h with hr | ⟨name, dec, _, _, hf⟩
+  · rcases refund_exact cx caller gas t t' hr with ⟨h0, rfl⟩ | ⟨_, hs, _, _⟩
+    · subst h0
+      exact ⟨Nat.zero_le _, Or.inl (fun x => (World.movedEgld_zero _ _ _ _).symm)⟩
+    · obtain ⟨hle, he⟩ := World.send_egld _ _ _ _ _ hs
+      exact ⟨hle, Or.inl he⟩
+  · simp only [registerTokenMetadataRaw, run_bind, run_emit] at hf
+    cases he : Abi.Metadata.encode ⟨Generated.MESSAGE_TYPE_REGISTER_TOKEN_METADATA, tok, UInt8.ofNat dec⟩ with
+    | error e => simp [he] at hf
+    | ok payload =>
+      simp only [he, run_bind, run_getI] at hf
+      obtain ⟨hle, hx⟩ := callContract_native_egld C cx _ _ _ gas
+        { t with evs := t.evs ++ [⟨cx.self, "token_metadata_registered_event", [tok], [encNat dec]⟩] } t' hkgs hkgw hf
+      exact ⟨hle, Or.inr hx⟩
+
+/-- … so **the service keeps none of it**: its own EGLD balance after the callback is its balance
+    before minus the gas value the first transaction had brought in. -/
+theorem metadata_callback_service_keeps_nothing (C : Crypto) (cx : ICtx) (tok : Bytes) (gas : Nat)
+    (caller : Bytes) (ok : Bool) (vals : List Bytes) (t t' : Tx)
+    (hkgs : t.w.kind t.w.its.gasService = some .gasService) (hkgw : t.w.kind t.w.its.gateway = some .gateway)
+    (hc : caller ≠ cx.self) (hg : t.w.its.gasService ≠ cx.self)
+    (h : registerTokenMetadataCallback C cx tok gas caller ok vals t = some ((), t')) :
+    World.egld t'.w cx.self + gas = World.egld t.w cx.self := by
+  obtain ⟨hle, hm⟩ := metadata_callback_moves_exactly_the_gas_value C cx tok gas caller ok vals t t' hkgs hkgw h
+  rcases hm with hm | hm
+  · rw [hm cx.self]; unfold World.movedEgld; simp [Ne.symm hc]; omega
+  · rw [hm cx.self]; unfold World.movedEgld; simp [Ne.symm hg]; omega
 
 /-! ### Non-vacuity (tests) -/
 example : asciiToU8 [49, 56] 0 = some 18 ∧ asciiToU8 [50, 53, 54] 0 = none := by decide
